@@ -71,6 +71,16 @@ def lastSync : List PollOutcome → Option (Int × TimeSpec)
       | .report b .synchronized a => some (b, a)
       | _ => none
 
+/-- what the writer thread's message means as a poll outcome (bound and class as the model derives them) -/
+def abstractMsg : Msg → PollOutcome
+  | .data t phc a now => .report (boundF t + phc) (classify t now) a
+  | .missing g => .silence g
+
+/-- no i64 overflow while handling this message (`bound += phc`, `as_of.tv_sec + 1000`) -/
+def Msg.ok : Msg → Bool
+  | .data t phc a _ => inI64 (boundF t + phc) && inI64 (a.sec + 1000)
+  | .missing _ => true
+
 namespace C08
 /-- the record C08 demands after a non-empty history `h` (latest outcome last) -/
 def spec (drift : Nat) (h : List PollOutcome) : Record :=
